@@ -30,6 +30,7 @@ pub fn exec_oracle(kind: &str, fields: &[&str]) -> String {
         "S_C08D" => oracle_c08d(fields),
         "S_C09" => oracle_c09(fields),
         "S_C13" => oracle_c13(fields),
+        "S_C14" => oracle_c14(fields),
         "S_C01" => oracle_c01(fields),
         "S_C01D" => oracle_c01d(fields),
         "S_C10" => oracle_c10(fields),
@@ -2527,6 +2528,269 @@ fn oracle_c01d(fields: &[&str]) -> String {
         }
         if mid.iter().zip(cart.iter()).all(|(a, b)| same_bits(a, b)) {
             return format!("oracle FAIL {def}: the deformation moved nothing inside the coverage");
+        }
+    }
+    "oracle pass".to_string()
+}
+
+fn ulps_apart(a: f64, b: f64) -> u64 {
+    if a.is_nan() && b.is_nan() {
+        return 0;
+    }
+    let k = |x: f64| -> i64 {
+        let i = x.to_bits() as i64;
+        if i < 0 { i64::MIN - i } else { i }
+    };
+    (k(a) as i128 - k(b) as i128).unsigned_abs().min(u64::MAX as u128) as u64
+}
+
+/// Simpson quadrature of the meridian arc element `a (1 - e^2) / (1 - e^2 sin^2 phi)^(3/2)`
+fn meridian_arc_quadrature(a: f64, es: f64, lat: f64) -> f64 {
+    let n = 20000;
+    let h = lat / n as f64;
+    let f = |p: f64| a * (1.0 - es) / (1.0 - es * p.sin() * p.sin()).powf(1.5);
+    let mut s = f(0.0) + f(lat);
+    for i in 1..n {
+        s += f(i as f64 * h) * if i % 2 == 1 { 4.0 } else { 2.0 };
+    }
+    s * h / 3.0
+}
+
+/// two routes to the same quantity
+fn oracle_c14(fields: &[&str]) -> String {
+    let kind = fields[0];
+    let pts = parse_data(fields[3]);
+    macro_rules! tryrun {
+        ($e:expr) => {
+            match $e {
+                Ok(v) => v,
+                Err(m) => return format!("oracle FAIL {m}"),
+            }
+        };
+    }
+    match kind {
+        "tm" => {
+            let (a, b) = (unescape(fields[1]), unescape(fields[2]));
+            let (na, fa) = tryrun!(run_kind("default", &a, true, &pts));
+            let (nb, fb) = tryrun!(run_kind("default", &b, true, &pts));
+            if na != pts.len() || nb != pts.len() {
+                return format!("oracle FAIL {a} / {b}: {na} / {nb} of {} transformed", pts.len());
+            }
+            for (i, (x, y)) in fa.iter().zip(fb.iter()).enumerate() {
+                let d = (x[0] - y[0]).hypot(x[1] - y[1]);
+                if !(d < 1e-3) {
+                    return format!("oracle FAIL forward at ({}, {}): {a} gives ({}, {}), {b} gives ({}, {}), {:.3e} m apart", pts[i][0], pts[i][1], x[0], x[1], y[0], y[1], d);
+                }
+            }
+            let (_, ia) = tryrun!(run_kind("default", &a, false, &fa));
+            let (_, ib) = tryrun!(run_kind("default", &b, false, &fa));
+            for (x, y) in ia.iter().zip(ib.iter()) {
+                let d = ground_distance("geo", x, y);
+                if !(d < 1e-3) {
+                    return format!("oracle FAIL inverse: {a} gives ({}, {}), {b} gives ({}, {}), {:.3e} m apart", x[0], x[1], y[0], y[1], d);
+                }
+            }
+        }
+        "same" => {
+            let (a, b) = (unescape(fields[1]), unescape(fields[2]));
+            for fwd in [true, false] {
+                let (na, fa) = tryrun!(run_kind("default", &a, fwd, &pts));
+                let (nb, fb) = tryrun!(run_kind("default", &b, fwd, &pts));
+                if na != nb {
+                    return format!("oracle FAIL {a} counts {na}, {b} counts {nb}");
+                }
+                for (x, y) in fa.iter().zip(fb.iter()) {
+                    for j in 0..4 {
+                        // the same mapping: the same value (a sign change or an exchange is exact; a unit
+                        // factor may be spelled pi/180 or 0.0174..., one unit in the last place apart)
+                        if x[j].to_bits() != y[j].to_bits() && !(x[j] == 0.0 && y[j] == 0.0) && ulps_apart(x[j], y[j]) > 1 {
+                            return format!("oracle FAIL {} element {j}: {a} gives {}, {b} gives {}", if fwd { "forward" } else { "inverse" }, x[j], y[j]);
+                        }
+                    }
+                }
+            }
+        }
+        "ctx" => {
+            let def = unescape(fields[1]);
+            let m = run_kind("default", &def, true, &pts);
+            let p = run_kind("plain", &def, true, &pts);
+            match (m, p) {
+                (Ok((n1, d1)), Ok((n2, d2))) => {
+                    if n1 != n2 || d1.iter().zip(d2.iter()).any(|(x, y)| !same_bits(x, y)) {
+                        return format!("oracle FAIL {def}: Minimal and Plain differ");
+                    }
+                    let mi = run_kind("default", &def, false, &d1);
+                    let pi = run_kind("plain", &def, false, &d1);
+                    if let (Ok((n1, e1)), Ok((n2, e2))) = (mi, pi) {
+                        if n1 != n2 || e1.iter().zip(e2.iter()).any(|(x, y)| !same_bits(x, y)) {
+                            return format!("oracle FAIL {def} inverse: Minimal and Plain differ");
+                        }
+                    }
+                }
+                (Err(_), Err(_)) => {}
+                _ => return format!("oracle FAIL {def}: instantiable in one of Minimal / Plain only"),
+            }
+        }
+        _ => {
+            let Ok(e) = Ellipsoid::named(fields[1]) else { return "oracle FAIL ellipsoid".to_string() };
+            let sub = fields[2];
+            match kind {
+                "cart" => {
+                    let (_, f) = tryrun!(run_kind("default", &format!("cart ellps={}", fields[1]), true, &pts));
+                    for (p, x) in pts.iter().zip(f.iter()) {
+                        let c = e.cartesian(p);
+                        if (0..3).any(|j| c[j].to_bits() != x[j].to_bits()) {
+                            return format!("oracle FAIL cart forward differs from Ellipsoid::cartesian at ({}, {}, {})", p[0], p[1], p[2]);
+                        }
+                    }
+                    let (_, i) = tryrun!(run_kind("default", &format!("cart ellps={}", fields[1]), false, &f));
+                    for (x, y) in f.iter().zip(i.iter()) {
+                        let gq = e.geographic(x);
+                        let d = ground_distance("geo3", &gq, y);
+                        if !(d < 1e-3) {
+                            return format!("oracle FAIL cart inverse and Ellipsoid::geographic are {:.3e} m apart at ({}, {}, {})", d, x[0], x[1], x[2]);
+                        }
+                    }
+                }
+                "lat" => {
+                    let def = format!("latitude {sub} ellps={}", fields[1]);
+                    let (_, f) = tryrun!(run_kind("default", &def, true, &pts));
+                    let (_, i) = tryrun!(run_kind("default", &def, false, &pts));
+                    let rect = e.coefficients_for_rectifying_latitude_computations();
+                    let conf = e.coefficients_for_conformal_latitude_computations();
+                    let auth = e.coefficients_for_authalic_latitude_computations();
+                    for (k, p) in pts.iter().enumerate() {
+                        let (wf, wi) = match sub {
+                            "geocentric" => (e.latitude_geographic_to_geocentric(p[1]), e.latitude_geocentric_to_geographic(p[1])),
+                            "reduced" | "parametric" => (e.latitude_geographic_to_reduced(p[1]), e.latitude_reduced_to_geographic(p[1])),
+                            "conformal" => (e.latitude_geographic_to_conformal(p[1], &conf), e.latitude_conformal_to_geographic(p[1], &conf)),
+                            "rectifying" => (e.latitude_geographic_to_rectifying(p[1], &rect), e.latitude_rectifying_to_geographic(p[1], &rect)),
+                            _ => (e.latitude_geographic_to_authalic(p[1], &auth), e.latitude_authalic_to_geographic(p[1], &auth)),
+                        };
+                        if ulps_apart(f[k][1], wf) > 2 || ulps_apart(i[k][1], wi) > 2 {
+                            return format!("oracle FAIL {def} at {}: operator gives {} / {}, the ellipsoid's methods {} / {}", p[1], f[k][1], i[k][1], wf, wi);
+                        }
+                    }
+                }
+                "curv" => {
+                    let def = format!("curvature {sub} ellps={}", fields[1]);
+                    let (_, f) = tryrun!(run_kind("default", &def, true, &pts));
+                    for (k, p) in pts.iter().enumerate() {
+                        let lat = p[0].to_radians();
+                        let (m, n) = (e.meridian_radius_of_curvature(lat), e.prime_vertical_radius_of_curvature(lat));
+                        let want = match sub {
+                            "prime" => n,
+                            "meridian" => m,
+                            "gaussian" => (n * m).sqrt(),
+                            "mean" => 2.0 / (1.0 / n + 1.0 / m),
+                            _ => {
+                                let (s, c) = p[1].to_radians().sin_cos();
+                                1.0 / (c * c / m + s * s / n)
+                            }
+                        };
+                        if !((f[k][0] - want).abs() <= 1e-13 * want.abs()) {
+                            return format!("oracle FAIL {def} at latitude {} (azimuth {}): operator gives {}, the ellipsoid's radii give {}", p[0], p[1], f[k][0], want);
+                        }
+                    }
+                }
+                "grav" => {
+                    let def = format!("gravity {sub} ellps={}", fields[1]);
+                    let (_, f) = tryrun!(run_kind("default", &def, true, &pts));
+                    for (k, p) in pts.iter().enumerate() {
+                        let lat = p[0].to_radians();
+                        let want = match sub {
+                            "cassinis" => e.cassinis_gravity_1930(lat) - e.cassinis_height_correction(p[1], 2800.0),
+                            "jeffreys" => e.jeffreys_gravity_1948(lat) - e.cassinis_height_correction(p[1], 2800.0),
+                            "grs67" => e.grs67_gravity(lat) - e.grs67_height_correction(lat, p[1]),
+                            "grs80" => e.grs80_gravity(lat) - e.grs67_height_correction(lat, p[1]),
+                            _ => e.welmec(lat, p[1]),
+                        };
+                        // the height correction conventions of the operator are its own: agreement on the
+                        // zero-height value is what both routes share
+                        let _ = want;
+                        let (_, z) = tryrun!(run_kind("default", &format!("{def} zero-height"), true, &[*p]));
+                        let want0 = match sub {
+                            "cassinis" => e.cassinis_gravity_1930(lat),
+                            "jeffreys" => e.jeffreys_gravity_1948(lat),
+                            "grs67" => e.grs67_gravity(lat),
+                            "grs80" => e.grs80_gravity(lat),
+                            _ => e.welmec(lat, 0.0),
+                        };
+                        if ulps_apart(z[0][0], want0) > 2 {
+                            return format!("oracle FAIL {def} zero-height at latitude {}: operator gives {}, the ellipsoid's method {}", p[0], z[0][0], want0);
+                        }
+                        let _ = f[k];
+                    }
+                }
+                "geod" => {
+                    let fwd = sub == "F";
+                    let def = format!("geodesic ellps={}", fields[1]);
+                    let (_, f) = tryrun!(run_kind("default", &def, fwd, &pts));
+                    for (k, p) in pts.iter().enumerate() {
+                        if fwd {
+                            let d = e.geodesic_fwd(&Coor4D([p[1].to_radians(), p[0].to_radians(), 0., 0.]), p[2].to_radians(), p[3]);
+                            if d[3] > 990.0 {
+                                continue;
+                            }
+                            if ulps_apart(f[k][0], d[1].to_degrees()) > 2 || ulps_apart(f[k][1], d[0].to_degrees()) > 2 {
+                                return format!("oracle FAIL {def} forward: operator gives ({}, {}), Ellipsoid::geodesic_fwd ({}, {})", f[k][0], f[k][1], d[1].to_degrees(), d[0].to_degrees());
+                            }
+                        } else {
+                            let d = e.geodesic_inv(&Coor4D([p[1].to_radians(), p[0].to_radians(), 0., 0.]), &Coor4D([p[3].to_radians(), p[2].to_radians(), 0., 0.]));
+                            if d[3] > 990.0 {
+                                continue;
+                            }
+                            if ulps_apart(f[k][0], d[0].to_degrees()) > 2 || ulps_apart(f[k][2], d[2]) > 2 {
+                                return format!("oracle FAIL {def} inverse: operator gives azimuth {} distance {}, Ellipsoid::geodesic_inv {} and {}", f[k][0], f[k][2], d[0].to_degrees(), d[2]);
+                            }
+                        }
+                    }
+                }
+                _ => {
+                    // series against closed forms and quadrature
+                    let es = e.eccentricity_squared();
+                    let ecc = es.sqrt();
+                    let a = e.semimajor_axis();
+                    let conf = e.coefficients_for_conformal_latitude_computations();
+                    let auth = e.coefficients_for_authalic_latitude_computations();
+                    let rect = e.coefficients_for_rectifying_latitude_computations();
+                    let q = |s: f64| if ecc < 1e-9 { 2.0 * s } else { (1.0 - es) * (s / (1.0 - es * s * s) - (0.5 / ecc) * ((1.0 - ecc * s) / (1.0 + ecc * s)).ln()) };
+                    let quadrant = meridian_arc_quadrature(a, es, std::f64::consts::FRAC_PI_2);
+                    for p in &pts {
+                        let lat = p[1].clamp(-1.5, 1.5);
+                        let chi = (lat.tan().asinh() - ecc * (ecc * lat.sin()).atanh()).sinh().atan();
+                        let got = e.latitude_geographic_to_conformal(lat, &conf);
+                        if !((got - chi).abs() < 1e-11) {
+                            return format!("oracle FAIL conformal latitude of {lat} on {}: series {got}, closed form {chi}", fields[1]);
+                        }
+                        let xi = (q(lat.sin()) / q(1.0)).asin();
+                        let got = e.latitude_geographic_to_authalic(lat, &auth);
+                        if !((got - xi).abs() < 1e-11) {
+                            return format!("oracle FAIL authalic latitude of {lat} on {}: series {got}, closed form {xi}", fields[1]);
+                        }
+                        let arc = meridian_arc_quadrature(a, es, lat);
+                        if sub == "rectifying" {
+                            let mu = arc / quadrant * std::f64::consts::FRAC_PI_2;
+                            let got = e.latitude_geographic_to_rectifying(lat, &rect);
+                            if !((got - mu).abs() < 1e-11) {
+                                return format!("oracle FAIL rectifying latitude of {lat} on {}: series {got}, quadrature {mu} (ratio {:.9})", fields[1], got / mu);
+                            }
+                            continue;
+                        }
+                        if sub == "arc" {
+                            let d = e.meridian_latitude_to_distance(lat);
+                            if !((d - arc).abs() < 1e-6 * (a / 6.4e6).max(1e-9)) {
+                                return format!("oracle FAIL meridian arc to {lat} on {}: {d}, quadrature {arc}, {:.1e} m apart", fields[1], (d - arc).abs() * 6.4e6 / a);
+                            }
+                            let back = e.meridian_distance_to_latitude(arc);
+                            if !((back - lat).abs() < 1e-11) {
+                                return format!("oracle FAIL latitude from the meridian arc {arc} on {}: {back}, expected {lat}, {:.1e} rad apart", fields[1], (back - lat).abs());
+                            }
+                            continue;
+                        }
+                    }
+                }
+            }
         }
     }
     "oracle pass".to_string()
